@@ -215,6 +215,52 @@ example :
         (.name2 .global (.generic .result) (.builtin .result) .unit
           (.name0 (.other 3) (.other 9) (.runtime 7)))) = true := by decide
 
+theorem gateArgs_sound : ∀ (rs : List RTy) (ts : List STy), (∀ t ∈ ts, t.WF = true) →
+    gateArgs gateArms rs ts = true →
+    ts.map scriptStruct = rs.map rustStruct ∧ ∀ t ∈ ts, t.mentionsDeclared = false
+  | [], [], _, _ => by simp
+  | [], _ :: _, _, h => by simp [gateArgs] at h
+  | _ :: _, [], _, h => by simp [gateArgs] at h
+  | r :: rs, t :: ts, hw, h => by
+    simp only [gateArgs, Bool.and_eq_true] at h
+    have hwt : t.WF = true := hw t (by simp)
+    have hws : ∀ t' ∈ ts, t'.WF = true := fun t' ht' => hw t' (by simp [ht'])
+    obtain ⟨ih1, ih2⟩ := gateArgs_sound rs ts hws h.2
+    refine ⟨by simp [crossing_sound r t hwt h.1, ih1], ?_⟩
+    intro t' ht'
+    rcases List.mem_cons.1 ht' with rfl | ht'
+    · exact crossing_types_are_host_types r _ hwt h.1
+    · exact ih2 t' ht'
+
+/-- **`signature_crossing_sound`** (∀ signatures of any arity, ∀ Rust function types).  If
+    `get_function::<fn(A…) -> R>` hands out a function of signature `(ts) -> tret`, the script
+    function has exactly as many parameters as the Rust type, and at EVERY position — and for the
+    return value — the script attributes to the value's bytes the structure Rust does, and no
+    position mentions a type declared by the script. -/
+theorem signature_crossing_sound (rs : List RTy) (rret : RTy) (ts : List STy) (tret : STy)
+    (hw : ∀ t ∈ ts, t.WF = true) (hwr : tret.WF = true)
+    (h : gateSig gateArms rs rret ts tret = true) :
+    ts.length = rs.length
+    ∧ ts.map scriptStruct = rs.map rustStruct
+    ∧ scriptStruct tret = rustStruct rret
+    ∧ (∀ t ∈ ts, t.mentionsDeclared = false) ∧ tret.mentionsDeclared = false := by
+  simp only [gateSig, Bool.and_eq_true] at h
+  obtain ⟨⟨⟨_, ha⟩, _⟩, hr⟩ := h
+  obtain ⟨h1, h2⟩ := gateArgs_sound rs ts hw ha
+  refine ⟨?_, h1, crossing_sound rret tret hwr hr, h2, crossing_types_are_host_types rret tret hwr hr⟩
+  have := congrArg List.length h1
+  simpa using this
+
+/-- not vacuous: `fn(u32, Option<u32>) -> ()` for `(u32, Option[u32]) -> ()`; one parameter less or
+    the script's own `Option` in the second position and nothing is handed out -/
+example :
+    let u32r : RTy := .prim (.Int .Unsigned .I32)
+    let u32s : STy := .name0 .global (.prim (.Int .Unsigned .I32)) (.prim (.Int .Unsigned .I32))
+    let opt : STy := .name1 .global (.generic .option) (.builtin .option) u32s
+    gateSig gateArms [u32r, .option u32r] .unit [u32s, opt] .unit = true
+    ∧ gateSig gateArms [u32r] .unit [u32s, opt] .unit = false
+    ∧ gateSig gateArms [u32r, .option u32r] .unit [u32s, swappedOption] .unit = false := by decide
+
 /-- **`ident_only_gate_reinterprets`.**  The scope in the name test is what `crossing_sound` rests
     on. With the identifier alone compared (every arm's scope test dropped), the script's own
     `enum Option[T] { None, Some(T) }` is admitted as `Option<u32>`, the two sides attribute
